@@ -6,9 +6,7 @@ From HV Require Import Base.Prelude Base.Crc32 Model.FHeap.
 
 (* input patterns for long objects *)
 Definition rep (b n : N) : bytes := repeat b (N.to_nat n).
-Fixpoint ramp_nat (b : N) (k : nat) : bytes :=
-  match k with O => [] | S k' => (b mod 256) :: ramp_nat (b + 1) k' end.
-Definition ramp (b n : N) : bytes := ramp_nat b (N.to_nat n).
+Definition ramp (b n : N) : bytes := obj b n.
 
 Definition dg_eqb (x : bytes) (n c : N) : bool := (len x =? n) && (crc32 x =? c).
 
